@@ -48,6 +48,7 @@ def run(ctx, res):
         res.cannot("C10.R1", fn, "loop-body", str(e), loc)
         return
     TOK = "tokens.get(cursor).some"
+    outs = shared_name_stack(res, fn, loc, b, outs)
     outp = [p["pat"]["id"] for p in b["params"] if p["pat"]["p"] == "bind" and p["ty"].startswith("&mut std::vec::Vec<") and "ContentPart" in p["ty"]]
     if len(outp) != 1:
         res.cannot("C10.R1", fn, "out-param", "expected one `&mut Vec<ContentPart>` parameter", loc)
@@ -274,6 +275,47 @@ def run(ctx, res):
         else:
             res.holds("C10.R2", fshort(b_), site)
     res.floor("C10.R2", "tag-name uses in the parser module", cnt, 3)
+
+
+def shared_name_stack(res, fn, loc, b, outs):
+    """The open ancestors kept as one shared `&mut Vec<&str>` of names (pushed before the recursive call, popped after it)
+    instead of a list of elements cloned per level: the ancestor test `names.iter().any(|n| *n == x)` is read as the test on
+    the per-level list, *provided* the stack is restored on every path (R10): what touches it on a path is exactly
+    push(opener's name), the recursive call, pop - in that order - or nothing at all."""
+    names = [p_["pat"] for p_ in b["params"] if p_["pat"].get("p") == "bind" and re.match(r"^&mut std::vec::Vec<&(?:'\w+ )?str>$", p_.get("ty") or "")]
+    if len(names) != 1 or any(p_["pat"].get("name") == "parent_elements" for p_ in b["params"]):
+        return outs
+    nid, nname = names[0]["id"], names[0]["name"]
+    n_ok = 0
+    for o in outs:
+        seq = []
+        for e in o["effects"]:
+            node = e[3] if len(e) > 3 and isinstance(e[3], dict) else {}
+            on_stack = node.get("k") == "mcall" and T.local_of(T.peel_ref(node["recv"])) == nid
+            if e[0] == "push" and on_stack:
+                seq.append("push:" + A.show(e[2]))
+            elif e[0] == "call" and str(e[1]).split("::")[-1] == "tree":
+                seq.append("call")
+            elif e[0] == "call" and on_stack and str(e[1]).split("::")[-1] in ("iter", "len", "is_empty", "last", "contains", "as_slice"):
+                continue
+            elif on_stack:
+                seq.append("%s" % str(e[1]).split("::")[-1])
+        label = ",".join("%s=%s" % (_short(k), v) for k, v in o["decisions"].items() if k != "is_some(tokens.get(cursor))") or "text-token"
+        if seq == [] or (len(seq) == 3 and seq[0] == "push:parse(tokens.get(cursor).some).some.name" and seq[1:] == ["call", "pop"]):
+            n_ok += 1
+            res.holds("C10.R10", fn, "stack-restored:" + label)
+        else:
+            res.add(Finding("C10.R10", fn, "stack-restored:" + label, "the shared stack of open names is touched by %s on this path; it must be push(opener's name), the recursive call, pop - or "
+                            "nothing: otherwise an ancestor is lost or a closed element stays open for the rest of the document" % seq, loc=loc))
+    # the test on the shared stack, read as the test on the per-level list
+    for o in outs:
+        d2 = type(o["decisions"])()
+        for k, v in o["decisions"].items():
+            k2 = k.replace("any(%s.iter(), {eq($e, " % nname, "any(parent_elements.iter(), {eq($e.name, ").replace("any(%s.iter(), {eq(*$e, " % nname, "any(parent_elements.iter(), {eq($e.name, ")
+            k2 = re.sub(r"any\(%s\.iter\(\), \{eq\((parse\(.*), \$e\)\}\)$" % re.escape(nname), r"any(parent_elements.iter(), {eq($e.name, \1)})", k2)
+            d2[k2] = v
+        o["decisions"] = d2
+    return outs
 
 
 def progress_and_pairing(res, fn, loc, outs, parts_id):
